@@ -340,8 +340,26 @@ def corpus(vf):
              + (vf.as_expr(2) * vf.as_expr(3) - vf.as_expr(0.5)) * u * v)
         V.add(e * vf.dx); return V
 
+    def operand_order(d, op):
+        # both operand orders of a non-commutative (and, for reference, a commutative) operator in ONE form, on subexpressions that are
+        # complex enough to be extracted as common subexpressions: the two occurrences must stay distinct
+        V = vf.VForm(d); u, v = V.basisfuns(); f = V.input('f'); g = V.input('g')
+        X = f * f + 1; Y = g * g + 2
+        e = {'-': (X - Y, Y - X), '/': (X / Y, Y / X), '+': (X + Y, Y + X), '*': (X * Y, Y * X)}[op]
+        V.add((e[0] * u * v + e[1] * u.dx(0) * v) * vf.dx); return V
+
+    def operand_order_functional(d, op):
+        V = vf.VForm(d, arity=1); v = V.basisfuns(); f = V.input('f'); g = V.input('g')
+        X = vf.sin(f) * f; Y = g * g * g
+        e = {'-': (X - Y, Y - X), '/': (X / (Y * Y + 1), (Y * Y + 1) / X)}[op]
+        V.add((e[0] * v + e[1] * v.dx(d - 1)) * vf.dx); return V
+
     for d in (1, 2):
         add('folds(%d)' % d, lambda d=d: folds(d))
+        for op in ('-', '/', '+', '*'):
+            add('operand_order(%d,%s)' % (d, op), lambda d=d, op=op: operand_order(d, op))
+        for op in ('-', '/'):
+            add('operand_order_functional(%d,%s)' % (d, op), lambda d=d, op=op: operand_order_functional(d, op))
     for d in (1, 2, 3):
         add('laplace(%d)' % d, lambda d=d: laplace(d))
         add('convdiff(%d)' % d, lambda d=d: convdiff(d))
